@@ -106,6 +106,10 @@ def run_property(pid, tier, write=True, root=None):
     # a generator of the repository whose object ended up inside a term was consumed by something the engine does not read as a loop (zip with a
     # range, list(...) of it, next(...)): what it yields, draws and raises was not seen. Rules that then found something missing decided from an
     # incomplete picture: their verdicts are withdrawn, the run is undecided
+    for m__ in prog.modules.values():
+        for fn_, ln_, p_ in getattr(m__, "domain_assumed", ()):
+            rep.assume("%s:%d %s: the parameter %s is a square two-dimensional numpy array (a test of its shape / type alone is read as the branch taken on that domain)"
+                       % (m__.relpath, ln_, fn_, p_))
     if _sym.OPAQUE_GENERATORS:
         from .report import VIOLATION, INCONCLUSIVE
         for g_ in sorted(_sym.OPAQUE_GENERATORS):
